@@ -1,7 +1,7 @@
 (* Round trip of the .poly persistence model (Model/C15.v, Section Persist). *)
 From Coq Require Import String.
 From Coq Require Import ZArith List Bool Lia ZifyBool.
-From Verif Require Import Model.C15.
+From Verif Require Import Model.C15 Proofs.C15_copy.
 Import ListNotations.
 Open Scope Z_scope.
 
@@ -542,25 +542,29 @@ Section Load.
     exists c',
       import_loop fuel (flat_map slines (done ++ rest)) (List.length done)
                   (ids0 ++ map (f_id F) done, c) done
-      = (LOk (done ++ rest), (ids0 ++ map (f_id F) (done ++ rest), c')).
+      = (LOk (done ++ rest), (ids0 ++ map (f_id F) (done ++ rest), c'))
+      /\ c <= c' /\ (forall f, In f rest -> f_id F f < c').
   Proof.
     induction rest as [|f rest IH]; intros done fuel ids0 c Hwf Hnd Hnew Hfuel.
     - destruct fuel as [|fuel]; [inversion Hfuel|]. cbn [C15.import_loop].
-      rewrite app_nil_r, load_one_end. now exists c.
+      rewrite app_nil_r, load_one_end. exists c. split; [reflexivity|]. split; [lia|intros f []].
     - destruct fuel as [|fuel]; [inversion Hfuel|]. cbn [C15.import_loop].
       inversion Hwf as [|? ? Hf Hwf']; subst. inversion Hnd as [|? ? Hnotin Hnd']; subst.
       rewrite (load_one_saved _ _ f).
       + specialize (IH (done ++ [f]) fuel ids0 (Z.max c (f_id F f + 1)) Hwf' Hnd').
         rewrite <- !app_assoc in IH. cbn [app] in IH.
         rewrite app_length, Nat.add_1_r in IH. rewrite map_app in IH. cbn [map] in IH.
-        rewrite app_assoc in IH. apply IH.
+        rewrite app_assoc in IH.
+        destruct IH as (c' & E & Hle & Hlt);
+          [|simpl in Hfuel; lia
+           |exists c'; split; [exact E|]; split; [lia|];
+            intros g [<-|Hg]; [lia|now apply Hlt]].
         * intros g Hg Hin. rewrite <- app_assoc in Hin.
           apply in_app_or in Hin. destruct Hin as [Hin|Hin].
           -- apply (Hnew g (or_intror Hg)). apply in_or_app. now left.
           -- apply in_app_or in Hin. destruct Hin as [Hin|[Hin|[]]].
              ++ apply (Hnew g (or_intror Hg)). apply in_or_app. now right.
              ++ apply Hnotin. rewrite Hin. now apply in_map.
-        * simpl in Hfuel. lia.
       + rewrite nth_error_app2 by lia. now rewrite Nat.sub_diag.
       + exact Hf.
       + apply Hnew. now left.
@@ -599,11 +603,12 @@ Section Load.
       load_one (flat_map slines fs) k (ids, c)
       = (LOk (mkpf F u (f_ax F f) (f_ay F f) (f_name F f) (f_inv F f) (f_pts F f)),
          (ids ++ [u], c'))
-      /\ ~ In u ids /\ RegInv (ids ++ [u], c') /\ (~ In (f_id F f) ids -> u = f_id F f).
+      /\ ~ In u ids /\ RegInv (ids ++ [u], c') /\ (~ In (f_id F f) ids -> u = f_id F f)
+      /\ c <= c'.
   Proof.
     intros Hn Hwf Hinv. destruct (wf_props f Hwf) as (Hid & Hx & Hy & Hnm).
     destruct (set_uid_spec (f_id F f) ids c Hinv) as (u & c' & E & Hnew & Hlt & Hle & Hsame).
-    exists u, c'. split; [|split; [exact Hnew|split; [|exact Hsame]]].
+    exists u, c'. split; [|split; [exact Hnew|split; [|split; [exact Hsame|exact Hle]]]].
     - unfold C15.load_one, C15.load_one_gen.
       rewrite (blocks_saved F fmtf fmt8), (map_nth_error _ _ _ Hn).
       rewrite load_body_saved by exact Hwf. cbn [a_x a_y a_name a_inv a_pts].
@@ -623,27 +628,29 @@ Section Load.
       /\ Forall2 same_but_id rest rest'
       /\ NoDup (map (f_id F) rest')
       /\ (forall g, In g rest' -> ~ In (f_id F g) ids)
-      /\ fst r' = ids ++ map (f_id F) rest'.
+      /\ fst r' = ids ++ map (f_id F) rest'
+      /\ RegInv r' /\ c <= snd r'.
   Proof.
     induction rest as [|f rest IH]; intros done got fuel ids c Hwf Hinv Hfuel.
     - destruct fuel as [|fuel]; [inversion Hfuel|]. cbn [C15.import_loop].
       rewrite app_nil_r, load_one_end. exists [], (ids, c).
       rewrite app_nil_r. split; [reflexivity|]. split; [constructor|].
-      split; [constructor|]. split; [intros g []|]. cbn. now rewrite app_nil_r.
+      split; [constructor|]. split; [intros g []|]. split; [cbn; now rewrite app_nil_r|].
+      split; [exact Hinv|cbn; lia].
     - destruct fuel as [|fuel]; [inversion Hfuel|]. cbn [C15.import_loop].
       inversion Hwf as [|? ? Hf Hwf']; subst.
       destruct (load_one_renumber (done ++ f :: rest) (List.length done) f ids c)
-        as (u & c' & E & Hnew & Hinv' & _); [|exact Hf|exact Hinv|].
+        as (u & c' & E & Hnew & Hinv' & _ & Hcc); [|exact Hf|exact Hinv|].
       { rewrite nth_error_app2 by lia. now rewrite Nat.sub_diag. }
       rewrite E.
       set (f' := mkpf F u (f_ax F f) (f_ay F f) (f_name F f) (f_inv F f) (f_pts F f)).
       destruct (IH (done ++ [f]) (got ++ [f']) fuel (ids ++ [u]) c' Hwf' Hinv')
-        as (rest' & r' & E' & H2 & Hnd & Hfresh & Hids); [simpl in Hfuel; lia|].
+        as (rest' & r' & E' & H2 & Hnd & Hfresh & Hids & Hri & Hcr); [simpl in Hfuel; lia|].
       rewrite <- app_assoc in E'. cbn [app] in E'.
       rewrite app_length, Nat.add_1_r in E'.
       exists (f' :: rest'), r'. rewrite <- app_assoc in E'. cbn [app] in E'.
       split; [exact E'|]. split; [constructor; [unfold same_but_id, f'; cbn; auto|exact H2]|].
-      split; [|split].
+      split; [|split; [|split; [|split; [exact Hri|lia]]]].
       + cbn [map]. constructor; [|exact Hnd]. intros Hin.
         apply in_map_iff in Hin. destruct Hin as [g [Eg Hg]].
         apply (Hfresh g Hg). rewrite Eg. apply in_or_app. right. now left.
@@ -707,17 +714,24 @@ Theorem roundtrip_partial :
       (forall f, In f fs -> ~ In (f_id F f) ids0) ->
       exists c',
         import_all F parsef parse_int (save_all F fmtf fmt8 fs) (ids0, c0)
-        = (LOk fs, (ids0 ++ map (f_id F) fs, c')).
+        = (LOk fs, (ids0 ++ map (f_id F) fs, c'))
+        /\ c0 <= c'
+        /\ ((forall i, In i ids0 -> i < c0) ->
+            forall i, In i (ids0 ++ map (f_id F) fs) -> i < c').
 Proof.
   intros F fmtf parsef fmt8 parse_int H1 H2 H3 H4 fs ids0 c0 Hwf Hnd Hnew.
   unfold import_all, save_all, unlines.
   rewrite lines_unlines by (apply saved_lines_no_nl; assumption).
   destruct (import_loop_saved F fmtf parsef fmt8 parse_int H1 H2 H3 H4 fs []
               (S (List.length (flat_map (save_lines F fmtf fmt8) fs))) ids0 c0 Hwf Hnd)
-    as [c' E].
+    as (c' & E & Hle & Hlt).
   - intros f Hf. cbn [map]. rewrite app_nil_r. now apply Hnew.
   - pose proof (saved_lines_length F fmtf fmt8 fs). lia.
-  - exists c'. cbn [app map List.length] in E. rewrite app_nil_r in E. exact E.
+  - exists c'. cbn [app map List.length] in E. rewrite app_nil_r in E.
+    split; [exact E|]. split; [exact Hle|].
+    intros Hinv i Hi. apply in_app_or in Hi. destruct Hi as [Hi|Hi].
+    + specialize (Hinv i Hi). lia.
+    + apply in_map_iff in Hi. destruct Hi as [f [<- Hf]]. now apply Hlt.
 Qed.
 
 (* import_all into ANY consistent registry (e.g. the session that saved the
@@ -738,17 +752,55 @@ Theorem roundtrip_renumber :
         /\ Forall2 (same_but_id F) fs fs'
         /\ NoDup (map (f_id F) fs')
         /\ (forall g, In g fs' -> ~ In (f_id F g) ids0)
-        /\ fst r' = ids0 ++ map (f_id F) fs'.
+        /\ fst r' = ids0 ++ map (f_id F) fs'
+        /\ (forall i, In i (fst r') -> i < snd r') /\ c0 <= snd r'.
 Proof.
   intros F fmtf parsef fmt8 parse_int H1 H2 H3 H4 fs ids0 c0 Hwf Hinv.
   unfold import_all, save_all, unlines.
   rewrite lines_unlines by (apply saved_lines_no_nl; assumption).
   destruct (import_loop_renumber F fmtf parsef fmt8 parse_int H1 H2 H3 H4 fs [] []
               (S (List.length (flat_map (save_lines F fmtf fmt8) fs))) ids0 c0 Hwf)
-    as (fs' & r' & E & A & B & C & D).
+    as (fs' & r' & E & A & B & C & D & G & H).
   - exact Hinv.
   - pose proof (saved_lines_length F fmtf fmt8 fs). lia.
-  - exists fs', r'. cbn [app List.length] in E. auto.
+  - exists fs', r'. cbn [app List.length] in E. repeat split; auto.
+Qed.
+
+(* the registry after an import is again consistent: a copy() of an imported
+   filter gets an unused identifier, and the same file can be imported again
+   (all filters come back, under further fresh identifiers) *)
+Theorem import_then_copy_or_import :
+  forall (F : Type) (fmtf : F -> str) (parsef : str -> option F)
+         (fmt8 : Z -> str) (parse_int : str -> option Z),
+    (forall v, parsef (fmtf v) = Some v) ->
+    (forall v, token_ok (fmtf v) = true) ->
+    (forall n, 0 <= n -> parse_int (fmt8 n) = Some n) ->
+    (forall n, 0 <= n -> digits_ok (fmt8 n) = true) ->
+    forall (fs : list (pfilter F)) (ids0 : list Z) (c0 : Z),
+      Forall (fun f => wf_filter f = true) fs ->
+      (forall i, In i ids0 -> i < c0) ->
+      exists fs' r',
+        import_all F parsef parse_int (save_all F fmtf fmt8 fs) (ids0, c0) = (LOk fs', r')
+        /\ Forall2 (same_but_id F) fs fs'
+        /\ (forall g b, In g fs' ->
+              let '(h, r2) := pf_copy g b r' in
+              ~ In (f_id F h) (fst r') /\ fst r2 = fst r' ++ [f_id F h]
+              /\ (forall i, In i (fst r2) -> i < snd r2))
+        /\ exists fs2 r2,
+              import_all F parsef parse_int (save_all F fmtf fmt8 fs) r' = (LOk fs2, r2)
+              /\ Forall2 (same_but_id F) fs fs2
+              /\ NoDup (map (f_id F) fs2)
+              /\ (forall g, In g fs2 -> ~ In (f_id F g) (fst r')).
+Proof.
+  intros F fmtf parsef fmt8 parse_int H1 H2 H3 H4 fs ids0 c0 Hwf Hinv.
+  destruct (roundtrip_renumber F fmtf parsef fmt8 parse_int H1 H2 H3 H4 fs ids0 c0 Hwf Hinv)
+    as (fs' & r' & E & A & B & C & D & G & H).
+  exists fs', r'. split; [exact E|]. split; [exact A|]. split.
+  - intros g b _. apply (copy_new_id g b r' G).
+  - destruct r' as [ids1 c1]. cbn [fst snd] in G.
+    destruct (roundtrip_renumber F fmtf parsef fmt8 parse_int H1 H2 H3 H4 fs ids1 c1 Hwf G)
+      as (fs2 & r2 & E2 & A2 & B2 & C2 & _).
+    exists fs2, r2. auto.
 Qed.
 
 (* ---- the guard cannot be dropped (finding C15-name-blanks) ------------------ *)
